@@ -33,6 +33,11 @@ def parseFrame : List String → Option Frame
   | ["OK"] => some ⟨.Ok, .none⟩
   | _ => none
 
+/-- a `Message` frame with these headers (`None` when empty) and payload -/
+def msgFrame (headers : List (Bytes × Bytes)) (m : Bytes) : Frame :=
+  ⟨.Message, .val (.struct [if headers.isEmpty then .opt none
+                             else .opt (some (.map (headers.map fun kv => (Val.str kv.1, Val.str kv.2)))), .bytes m])⟩
+
 def strOf : Val → Bytes
   | .str b => b
   | .bytes b => b
